@@ -103,3 +103,23 @@ pub fn rev_loop(v: &mut Vec<u32>) {
         }
     }
 }
+
+/// Expansions of the `par!` / `seq!` macros (C16.MACRO): the macros are `macro_rules!` and only
+/// exist as MIR where they are used.
+pub fn macro_par3<A, B, C>(a: A, b: B, c: C) -> impl Sized
+where
+    A: for<'x> shred::RunWithPool<'x> + Send,
+    B: for<'x> shred::RunWithPool<'x> + Send,
+    C: for<'x> shred::RunWithPool<'x> + Send,
+{
+    shred::par![a, b, c,]
+}
+
+pub fn macro_seq3<A, B, C>(a: A, b: B, c: C) -> impl Sized
+where
+    A: for<'x> shred::RunWithPool<'x>,
+    B: for<'x> shred::RunWithPool<'x>,
+    C: for<'x> shred::RunWithPool<'x>,
+{
+    shred::seq![a, b, c,]
+}
